@@ -99,11 +99,14 @@ int g_rewait, g_unref, g_cache, g_recall, g_wake, g_fin, g_detach, g_attach, g_s
 static void STUB_resume_context_notify(void *a) { g_rewait++; g_rewait_arg = a; }
 static void STUB_arena_unref_external(struct thread_data *td) { g_unref++; }
 static void STUB_co_cache_push(struct thread_data *td, struct task_dispatcher *d) {
-    OBLIGATION(d != td->my_task_dispatcher, "C20.switch: a coroutine is cached (and may be destroyed or handed out again at once) only from another stack");
-    OBLIGATION(d->m_thread_data != td, "C20.switch: a coroutine is cached only after its thread has left it");
+    /* d is read back from memory a loop contract havocs: only constants are dereferenced */
+    OBLIGATION(d != td->my_task_dispatcher && (d == &OTHER ? OTHER.m_thread_data : d == &ME ? ME.m_thread_data : d == &DEFLT ? DEFLT.m_thread_data : td) != td, "C20.switch: a coroutine is cached (and may be destroyed or handed out again at once) only from another stack, after its thread has left it");
     g_cache++; g_cache_arg = d; }
 static void STUB_sp_recall_owner(struct sp2 *s) { __CPROVER_assert(g_wake == 0, "C20.switch: the owner is recalled before its waiters are woken"); g_recall++; g_recall_arg = s; }
-static void STUB_notify_waiters_of(struct thread_data *td, struct sp2 *s) { g_wake++; g_wake_arg = s; }
+/* concurrent_monitor::notify(pred): wakes the sleepers whose context satisfies pred.  The owner of a recalled stack sleeps (coroutine_waiter::pause, job rtask.self_recall) under the address of its
+   default stack's suspend point: the sliced predicate must select that context, or the owner of an arena without other threads is never woken and the suspended code never continues */
+struct market_context { uintptr_t my_uniq_addr; void *my_arena_addr; }; bool g_wake_owner;
+#define NOTIFY_WAITERS(td, pred) do { struct market_context owner_ = { (uintptr_t)g_arg0, NULL }; g_wake++; g_wake_owner = pred(owner_); } while (0)
 static void STUB_sp_finilize_resume(struct sp2 *s) { __CPROVER_assert(g_recall + g_cache + g_rewait == 0, "C20.switch: the hand-shake with the stack that was left (finilize_resume) comes before the post-resume action"); g_fin++; }
 static void STUB_detach_task_dispatcher(struct thread_data *td) { g_detach++; td->my_task_dispatcher = NULL; }
 static void STUB_attach_task_dispatcher(struct thread_data *td, struct task_dispatcher *d) { __CPROVER_assert(g_detach == g_attach + 1, "C20.switch: detach, then attach"); g_attach++; td->my_task_dispatcher = d; }
@@ -115,7 +118,7 @@ static void arrive_with_pending(struct task_dispatcher *d) {       /* somebody s
 #define ACTION_DONE_ONCE (TD.my_post_resume_action == pra_none && TD.my_post_resume_arg == NULL \
    && g_rewait == (g_pending0 == pra_register_waiter) && (g_pending0 != pra_register_waiter || g_rewait_arg == g_arg0) \
    && g_unref == (g_pending0 == pra_cleanup) && g_cache == (g_pending0 == pra_cleanup) && (g_pending0 != pra_cleanup || g_cache_arg == g_arg0) \
-   && g_recall == (g_pending0 == pra_notify) && g_wake == (g_pending0 == pra_notify) && (g_pending0 != pra_notify || (g_recall_arg == g_arg0 && g_wake_arg == g_arg0)))
+   && g_recall == (g_pending0 == pra_notify) && g_wake == (g_pending0 == pra_notify) && (g_pending0 != pra_notify || (g_recall_arg == g_arg0 && g_wake_owner)))
 static void STUB_coroutine_switch(struct task_dispatcher *self, struct task_dispatcher *target) {
     __CPROVER_assert(TD.my_task_dispatcher == target && g_attach == 1, "C20.switch: the thread is attached to the target dispatcher before the stacks are switched");
     g_switch++; if (nondet_bool()) { self->m_thread_data = NULL; return; }     /* this stack is never continued with a thread attached (abandoned coroutine) */
@@ -137,19 +140,19 @@ int g_suspends;
 static void STUB_internal_suspend(struct task_dispatcher *self) { __CPROVER_assert(TD.my_post_resume_action == pra_notify && TD.my_post_resume_arg == self->m_suspend_point, "C20.switch: an outermost level that ends on a foreign stack leaves asking for the recall of THIS stack's owner"); g_suspends++; TD.my_post_resume_action = pra_none; TD.my_post_resume_arg = NULL; }
 static bool STUB_inbox_is_idle(struct task_dispatcher *self) { return nondet_bool(); }
 static void STUB_inbox_set_idle_false(struct task_dispatcher *self) {}
-#define LOOP_colw_1 __CPROVER_assigns(resume_task, TD, ME.m_thread_data, g_polls, g_pending0, g_arg0, g_rewait, g_unref, g_cache, g_recall, g_wake, g_rewait_arg, g_cache_arg, g_recall_arg, g_wake_arg) \
+#define LOOP_colw_1 __CPROVER_assigns(resume_task, TD, ME.m_thread_data, g_polls, g_pending0, g_arg0, g_rewait, g_unref, g_cache, g_recall, g_wake, g_rewait_arg, g_cache_arg, g_recall_arg, g_wake_arg, g_wake_owner) \
   __CPROVER_loop_invariant(TD.my_post_resume_action == pra_none && TD.my_post_resume_arg == NULL && ME.m_thread_data == &TD && TD.my_task_dispatcher == &ME)
 #include "switch.inc"
 static struct snapshot havoc_disp(struct task_dispatcher *d) { struct snapshot s; d->m_properties.outermost = nondet_bool(); d->m_properties.fifo_tasks_allowed = nondet_bool(); d->m_properties.critical_task_allowed = nondet_bool();
     d->m_execute_data_ext.context = nondet_ptr(); d->m_execute_data_ext.task_disp = d; d->m_execute_data_ext.isolation = nondet_intptr_t(); d->m_execute_data_ext.wait_ctx = nondet_ptr(); d->m_stealing_threshold = nondet_uintptr_t();
     s.p = d->m_properties; s.e = d->m_execute_data_ext; s.thr = d->m_stealing_threshold; s.s = d->m_suspend_point; return s; }
 static void world(void) { SLOT.my_default_task_dispatcher = &DEFLT; TD.my_arena_slot = &SLOT; ME.m_suspend_point = &SP_ME; OTHER.m_suspend_point = &SP_OTHER; DEFLT.m_suspend_point = &SP_OTHER;
-    g_fin = g_detach = g_attach = g_switch = g_polls = g_suspends = 0; }
+    g_fin = g_detach = g_attach = g_switch = g_polls = g_suspends = 0; OTHER.m_thread_data = NULL; DEFLT.m_thread_data = NULL; ME.m_thread_data = NULL; }   /* a dispatcher nobody runs on has no thread (detach precedes every switch) */
 void h_post_action(void) {
     world(); arrive_with_pending(&ME); struct snapshot s0 = havoc_disp(&ME); struct snapshot s1 = havoc_disp(&OTHER);
     td_do_post_resume_action(&ME);
     OBLIGATION(SAME_DISP(s0, &ME) && SAME_DISP(s1, &OTHER), FRAME_TEXT);
-    OBLIGATION(ACTION_DONE_ONCE, "C20.switch: do_post_resume_action performs exactly the pending action, once, on its own argument (waiter re-registered | coroutine unreferenced and cached | owner recalled then woken), and clears it");
+    OBLIGATION(ACTION_DONE_ONCE, "C20.switch: do_post_resume_action performs exactly the pending action, once, on its own argument (waiter re-registered | coroutine unreferenced and cached | owner recalled, then the sleepers waiting for exactly this suspend point woken), and clears it");
     VACUITY_END();
 }
 void h_prologue(void) {
